@@ -164,10 +164,7 @@ def build(sc, objs=None):
         objs["weather_df"] = perturb_weather(objs["weather_df"], sc.get("_perturb"))
         objs["weather_df"] = transform_weather(objs["weather_df"], sc.get("_wx"))
         if sc.get("_prelude"):
-            pre = dict(sc)
-            pre.update(sc["_prelude"])
-            m0 = S.make_model(pre, objs)
-            m0.run_model(till_termination=True)
+            return S.make_model_after_prelude(sc, objs)
     return S.make_model(sc, objs), objs
 
 
